@@ -10,4 +10,5 @@ def check(run, tier, seed, replay=None):
                        "C09 write on a member of a paused ObjectSet / phase",
                        "seeded random worlds with paused ObjectSets (members missing, modified, foreign-owned, uncached) through the real "
                        "controller, and paused owners of all five phase-controller flavours through the real PhaseReconciler",
-                       phase_judge="judge09p", phase_scs=pscs)
+                       phase_judge="judge09p", phase_scs=pscs,
+                       extra_identities=("C09 pause not handed to a delegated phase behind an incomplete earlier phase",))
